@@ -617,6 +617,18 @@ def _naming(ctx, P):
             return
         a = calls[0][1]
         th = a[1]
+        # the defaulted target_data is a column like any other: the caller's options reach the kernel unchanged (its direction is
+        # examined unless the *caller* said otherwise - a coordinate may well decrease along the axis)
+        for kind, a_, kw in calls:
+            for opt, tok in (("bypass_checks", Sym("U_BYPASS")), ("mask_edges", Sym("U_MASK")), ("suffix", Sym("U_SUFFIX"))):
+                if kw.get(opt) != tok:
+                    ctx.report("R08.1", tfi, f"target_data omitted: `{opt}`", f"with target_data omitted the interpolation receives {opt}={kw.get(opt)!r} instead of the caller's value")
+                    break
+            else:
+                continue
+            break
+        else:
+            ctx.ok("R08.1", "target_data omitted: options", "the caller's options reach the interpolation unchanged")
         if not (isinstance(th, Obj) and th.name == "grid_coordinate" and th.attrs.get("of") == "grid_ds" and th.attrs.get("key") == dimsym("AZ", "center")):
             ctx.report("R08.4", tfi, "target_data omitted", f"theta is {th!r}; expected the grid dataset's coordinate of the data's dimension along the axis")
         else:
